@@ -46,24 +46,16 @@ func parseFresh(text string) (v zed.Value, zctx *zed.Context, err error) {
 		v, e = zson.ParseValue(zctx, text)
 		return e
 	})
+	// the same text through the parser on readers that chunk it (delivery.go)
+	if text != "" {
+		deliveryParseValue(text, zctx, v, err)
+	}
 	return
 }
 
 func readAllFresh(text string) (vals []zed.Value, zctx *zed.Context, err error) {
-	zctx = zed.NewContext()
-	err = guarded(func() error {
-		r := zsonio.NewReader(zctx, strings.NewReader(text))
-		for {
-			v, e := r.Read()
-			if e != nil {
-				return e
-			}
-			if v == nil {
-				return nil
-			}
-			vals = append(vals, v.Copy())
-		}
-	})
+	vals, zctx, err = readZSONFrom(strings.NewReader(text))
+	deliveryZSON(text, zctx, vals, err)
 	return
 }
 
